@@ -454,7 +454,9 @@ func c20Confinement(c *vlib.Ctx, root string, row *int) {
 	}
 	valid := c20Config + "/extra { pull { path /pull/extra } }\n"
 	cases := []tc{
-		{"apply_foreign_absolute_path", "config_apply", func(f c20Fixture, o string) map[string]any { return map[string]any{"path": o, "content": valid, "mode": "write_only"} }, false},
+		{"apply_foreign_absolute_path", "config_apply", func(f c20Fixture, o string) map[string]any {
+			return map[string]any{"path": o, "content": valid, "mode": "write_only"}
+		}, false},
 		{"apply_traversal_path", "config_apply", func(f c20Fixture, o string) map[string]any {
 			return map[string]any{"path": filepath.Join(f.Dir, "sub", "..", "..", filepath.Base(filepath.Dir(o)), filepath.Base(o)), "content": valid, "mode": "write_only"}
 		}, false},
@@ -472,16 +474,24 @@ func c20Confinement(c *vlib.Ctx, root string, row *int) {
 		{"apply_unknown_key", "config_apply", func(f c20Fixture, o string) map[string]any {
 			return map[string]any{"content": valid, "mode": "write_only", "target_path": o}
 		}, false},
-		{"apply_parse_error_content", "config_apply", func(f c20Fixture, o string) map[string]any { return map[string]any{"content": "/broken {", "mode": "write_only"} }, false},
+		{"apply_parse_error_content", "config_apply", func(f c20Fixture, o string) map[string]any {
+			return map[string]any{"content": "/broken {", "mode": "write_only"}
+		}, false},
 		{"apply_compile_error_content", "config_apply", func(f c20Fixture, o string) map[string]any {
 			return map[string]any{"content": "/a { pull { path /p } }\n/a { pull { path /q } }\n", "mode": "write_only"}
 		}, false},
-		{"apply_content_not_string", "config_apply", func(f c20Fixture, o string) map[string]any { return map[string]any{"content": 42, "mode": "write_only"} }, false},
-		{"apply_preview_only", "config_apply", func(f c20Fixture, o string) map[string]any { return map[string]any{"content": valid, "mode": "preview_only"} }, false},
+		{"apply_content_not_string", "config_apply", func(f c20Fixture, o string) map[string]any {
+			return map[string]any{"content": 42, "mode": "write_only"}
+		}, false},
+		{"apply_preview_only", "config_apply", func(f c20Fixture, o string) map[string]any {
+			return map[string]any{"content": valid, "mode": "preview_only"}
+		}, false},
 		{"apply_write_and_reload_without_instance", "config_apply", func(f c20Fixture, o string) map[string]any {
 			return map[string]any{"content": valid, "mode": "write_and_reload", "reload_timeout": "150ms"}
 		}, false},
-		{"apply_valid", "config_apply", func(f c20Fixture, o string) map[string]any { return map[string]any{"content": valid, "mode": "write_only"} }, true},
+		{"apply_valid", "config_apply", func(f c20Fixture, o string) map[string]any {
+			return map[string]any{"content": valid, "mode": "write_only"}
+		}, true},
 		{"upsert_foreign_path", "management_endpoint_upsert", func(f c20Fixture, o string) map[string]any {
 			return map[string]any{"path": o, "application": "app1", "endpoint_name": "ep2", "route": "/spare", "reason": "x"}
 		}, false},
